@@ -20,6 +20,9 @@ func rx1Rows(s *cases.Set, c bandcfg.Config, b bandLike, ops []bandcfg.ChanOp, e
 	rx1RowsT(s, c, b, bandcfg.ChanOps(ops), bandcfg.Bools(errs), bandcfg.ChanOpsReplay(ops), label, kind)
 }
 
+// rowFilter, when set, selects the uplink channel indices that get a row (very long histories).
+var rowFilter func(ch int) bool
+
 // rx1RowsT: the history is given as printed Gallina terms (compact forms for long histories) and
 // as replay description.
 func rx1RowsT(s *cases.Set, c bandcfg.Config, b bandLike, opsTerm, errsTerm string, history interface{}, label, kind string) {
@@ -27,6 +30,9 @@ func rx1RowsT(s *cases.Set, c bandcfg.Config, b bandLike, opsTerm, errsTerm stri
 	n := len(idxs)
 	for _, ch := range idxs {
 		ch := ch
+		if rowFilter != nil && !rowFilter(ch) {
+			continue
+		}
 		key := fmt.Sprintf("rx1hist:%s:ops=%s:ch=%d", c.Key(), label, ch)
 		u, err := b.GetUplinkChannel(ch)
 		if err != nil {
